@@ -11,10 +11,10 @@ CONSTANTS
   Mon = TRUE
   History = FALSE
   Rearm = TRUE
-  CoalesceOnEqual = TRUE
+  CoalesceOnEqual = FALSE
   SignalOnInsert = TRUE
   FirstSighting = TRUE
   SeedAtomic = TRUE
-  RegisterInThunk = TRUE
+  RegisterInThunk = FALSE
 INVARIANTS M_C18_Replay M_C18_Alternate M_C18_Elide
 CHECK_DEADLOCK FALSE
